@@ -144,7 +144,7 @@ pub trait Harness: Sync {
         }
     }
     fn max_paths(&self) -> usize {
-        200_000
+        20_000
     }
     /// uf logic needed
     fn uf(&self) -> bool {
